@@ -62,6 +62,12 @@ struct WriteMap {
 // target type name of a NiBlockRef<T>::Sync __PRETTY_FUNCTION__ ("... [T = nifly::NiNode]")
 std::string refTargetType(const char* pretty);
 
+// The object a restart loads the saved file into: a fresh one, or (F-REUSE) the object that wrote the file.
+inline std::unique_ptr<NifFile> restartObject(std::unique_ptr<NifFile>& current, Ctx& ctx) {
+	if (simReuseObject() && current) { ctx.fault("F-REUSE"); return std::move(current); }
+	return std::make_unique<NifFile>();
+}
+
 struct SaveSpec {
 	bool raw = true;                 // raw: optimize=false, sortBlocks=false
 	size_t failAfter = std::string::npos;
